@@ -207,6 +207,7 @@ func stepsElapsed(st []TimeStep) (elapsed, skew int) {
 }
 
 type genState struct {
+	advanced int // simulated seconds of pause planned so far in this scenario (bounded: real time per scenario)
 	r     *Rng
 	w     *World
 	clock time.Time
@@ -392,6 +393,14 @@ func (g *genState) genMutating(kind string, file string) Op {
 			}
 		}
 		op.Steps = genPauseSteps(r)
+		for i := range op.Steps {
+			// at most ~5 simulated hours of pause per scenario (each simulated hour costs about
+			// 0.7 s of real time; the watchdog must never mistake a long scenario for a hang)
+			if g.advanced+op.Steps[i].AdvanceS > 18000 {
+				op.Steps[i].AdvanceS = 61 + op.Steps[i].AdvanceS%120
+			}
+			g.advanced += op.Steps[i].AdvanceS
+		}
 		if g.focus == "C11" || g.focus == "C03" {
 			// the style/line oracles do not need long pauses
 			for i := range op.Steps {
